@@ -93,6 +93,14 @@ def run(ctx, budget):
     # length-inferred payloads followed directly by other messages
     for _ in range(budget // 4 + 5):
         streams.append(gen.stream(rng, rng.choice([2, 3]), 'GGWV'))
+    # large messages (1-5 kB) directly followed by other data
+    for _ in range(max(6, budget // 10)):
+        streams.append(gen.stream(rng, rng.choice([2, 3, 4]), 'LKMLKMVUZJ'))
+    for n in (1024, 2048, 2049, 4100):
+        seqs = {'n': 3}
+        big = gen.frame(rng.choice([13120, 2999]), bytes(rng.randrange(256) for _ in range(n)), 1, 0)
+        streams.append((big + gen.token(rng, 'V', seqs), 'LV'))
+        streams.append((gen.token(rng, 'Z', seqs) + big + b'\x2e', 'ZLS'))
     for r in fv.corpus('C05') + fv.corpus('C04'):      # regression corpus first
         if 'stream' in r:
             one_stream(ctx, bytes.fromhex(r['stream']), 'corpus', r.get('max_payload', 1 << 24), lines, pending)
